@@ -305,7 +305,7 @@ def hexify_layout(prog, rep):
             for x in f.all_elems():
                 if x.cls == "ArraySubscriptExpr" and norm(x) == src and x.block.id == e.block.id and x.i < e.i:
                     j = A.lin(x.kid(1), A.state_before(e))
-        if src is not None and src == ("*", pin):
+        if src is not None and src[0] == "*" and src[1][0] == "v":
             # the input walked with the pointer itself: byte j is the one at (in - in at entry)
             sb = A.state_before(e)
             for x in f.all_elems():
